@@ -77,6 +77,12 @@ int main(void)
 					if (!same) printf(":MULTICALL-DECODER-DIFFERS(chunk=%zu,ret=%d,index=%s)", chunk, (int)r3, si ? "yes" : "NULL");
 					lzma_end(&ds); if (r3 == LZMA_STREAM_END) lzma_index_end(si, NULL);
 				}
+				// a decoded Index is an Index like any other: it can be appended to (also one decoded from an Index without Records)
+				if (back) { uint64_t c0 = lzma_index_block_count(back), u0 = lzma_index_uncompressed_size(back);
+					lzma_ret ar = lzma_index_append(back, NULL, 104, 7);
+					if (ar == LZMA_OK && (lzma_index_block_count(back) != c0 + 1 || lzma_index_uncompressed_size(back) != u0 + 7)) printf(":APPEND-TO-DECODED-INDEX-WRONG");
+					lzma_index_iter it2; lzma_index_iter_init(&it2, back); uint64_t seen = 0; while (!lzma_index_iter_next(&it2, LZMA_INDEX_ITER_BLOCK)) seen++;
+					if (seen != lzma_index_block_count(back)) printf(":ITER-AFTER-APPEND-WRONG"); }
 				printf(" ");
 				lzma_index_end(back, NULL); free(buf); break; }
 			case 'z': lzma_index_end(ix[k], NULL); ix[k] = NULL; printf("ok "); break;
